@@ -1194,6 +1194,27 @@ def oracle_ocs_ucs(acc, tw, U, g, n):
         for p in pts[:2]:
             if not _close(u3.to_wcs(p), mt.transform(u.to_wcs(p)), 1024 * EPS * sc * 64):
                 acc.fail(f"ucs/transform/{tw.name}/{_short(nv)}", "ucs.transform(m).to_wcs(p) != m.transform(ucs.to_wcs(p))", dict(rep, p=list(p), M=list(mt)))
+        # in-place mutators (transform / shift / moveto) after the object has been used: every derived conversion must equal
+        # that of a freshly constructed UCS with the same frame (no stale cached state)
+        us = u.copy()
+        warm = (us.to_ocs(pts[0]), list(us.points_to_ocs(pts[:2])), us.ucs_direction_to_ocs_direction(pts[0]), us.to_ocs_angle_deg(30.0))
+        rigid = M.axis_rotate((r.choice([1.0, 0.0, 2.0]), r.choice([1.0, 2.0, -1.0]), r.choice([0.5, 2.0, -2.0])), r.uniform(0.3, 2.8)) * \
+            M.translate(float(g.dy(0, 4)), float(g.dy(0, 4)), float(g.dy(0, 4)))
+        us.transform(rigid)
+        us.shift((1.0, -2.0, 0.5))
+        fresh = U.UCS(origin=us.origin, ux=us.ux, uy=us.uy, uz=us.uz)
+        for p in pts[:3]:
+            for name, fa, fb in (("to_ocs", us.to_ocs(p), fresh.to_ocs(p)), ("to_wcs", us.to_wcs(p), fresh.to_wcs(p)),
+                                 ("from_wcs", us.from_wcs(p), fresh.from_wcs(p)),
+                                 ("ucs_direction_to_ocs_direction", us.ucs_direction_to_ocs_direction(p), fresh.ucs_direction_to_ocs_direction(p)),
+                                 ("points_to_ocs", next(iter(us.points_to_ocs([p]))), next(iter(fresh.points_to_ocs([p]))))):
+                if not _close(fa, fb, 4096 * EPS * (sc + 16.0)):
+                    acc.fail(f"ucs/stale-after-transform/{name}/{tw.name}/{_short(nv)}",
+                             f"after to_ocs(); transform(m); shift(): ucs.{name}({tuple(p)}) = {tuple(fa)} but a fresh UCS with the same frame gives {tuple(fb)}",
+                             dict(rep, p=list(p), M=list(rigid)))
+        a1, a2 = us.to_ocs_angle_deg(30.0), fresh.to_ocs_angle_deg(30.0)
+        if abs(math.remainder(a1 - a2, 360.0)) > 1e-6:
+            acc.fail(f"ucs/stale-after-transform/to_ocs_angle_deg/{tw.name}/{_short(nv)}", f"to_ocs_angle_deg(30) = {a1} after transform, fresh UCS: {a2}", rep)
         ang = r.uniform(-3, 3)
         for rot in (u.rotate_local_x(ang), u.rotate_local_y(ang), u.rotate_local_z(ang), u.rotate((1, 2, 2), ang)):
             if not rot.is_cartesian or not _close(rot.origin, org, 0):
